@@ -312,17 +312,23 @@ the exporter secret of the current epoch cached or not (the only pre-state unkno
 
 open CrashSeq in
 /-- **classify_sound_all.**  For EVERY classified case of the regenerated table, every success path, every proper
-    prefix `k` and every fresh store: the decision procedure `classifyG` (the one `vlib/crashweng.py` applies to the
-    real store) calls the crash point harmless exactly when it is recovered — a re-delivered event ends in the
-    uninterrupted run's observable state, an interrupted local call leaves a usable store — and the class does not
-    depend on which fresh store it is. -/
+    prefix `k` and every fresh store `d`, with `c` the class the decision procedure `classifyG` assigns (the one
+    `vlib/crashweng.py` applies to the real store) and `r` = the crash point is recovered (a re-delivered event ends
+    in the uninterrupted run's observable state; an interrupted local call leaves a usable store):
+    a class called harmless is recovered; a recovered point is called harmless or differs in the dedup record of
+    the event only; a point that is not recovered carries a named mechanism; and neither `c` nor `r` depends on
+    which fresh store it is. -/
 theorem classify_sound_all (case : Nat) (paths : List (List Nat)) (hc : (case, paths) ∈ Generated.writeSeq)
     (hm : CrashSeq.modelled case = true) (p : List Nat) (hp : p ∈ paths) (k : Nat)
     (hk : k < (CrashCore.expand case p).length) (d : CrashCore.Db) (hd : d ∈ CrashSeq.freshStores case) :
-    (CrashSeq.classifyG (CrashSeq.modeOf case) (CrashCore.expand case p) k d).harmless
-      = CrashSeq.recoveredG (CrashSeq.modeOf case) (CrashCore.expand case p) k d ∧
-    CrashSeq.classifyG (CrashSeq.modeOf case) (CrashCore.expand case p) k d
-      = CrashSeq.classifyG (CrashSeq.modeOf case) (CrashCore.expand case p) k (CrashSeq.freshStore case false) := by
+    let ws := CrashCore.expand case p
+    let c := CrashSeq.classifyG (CrashSeq.modeOf case) ws k d
+    let r := CrashSeq.recoveredG (CrashSeq.modeOf case) ws k d
+    (c.harmless = true → r = true) ∧
+    (r = true → c.harmless = true ∨ CrashSeq.recordOnly (CrashSeq.modeOf case) ws k d = true) ∧
+    (r = false → c ≠ .other ∧ c ≠ .recoverable) ∧
+    c = CrashSeq.classifyG (CrashSeq.modeOf case) ws k (CrashSeq.freshStore case false) ∧
+    r = CrashSeq.recoveredG (CrashSeq.modeOf case) ws k (CrashSeq.freshStore case false) := by
   have h : CrashSeq.soundAll = true := by decide
   unfold CrashSeq.soundAll at h
   rw [List.all_eq_true] at h
@@ -334,8 +340,19 @@ theorem classify_sound_all (case : Nat) (paths : List (List Nat)) (hc : (case, p
   rw [List.all_eq_true] at h3
   have h4 := h3 d hd
   unfold CrashSeq.soundAt at h4
-  simp only [Bool.and_eq_true, beq_iff_eq] at h4
-  exact h4
+  simp only [Bool.and_eq_true, Bool.or_eq_true, Bool.not_eq_true', beq_iff_eq, bne_iff_ne] at h4
+  obtain ⟨⟨⟨⟨a1, a2⟩, a3⟩, a4⟩, a5⟩ := h4
+  refine ⟨?_, ?_, ?_, a4, a5⟩
+  · intro hh; rcases a1 with x | x
+    · rw [x] at hh; cases hh
+    · exact x
+  · intro hr; rcases a2 with (x | x) | x
+    · rw [x] at hr; cases hr
+    · exact Or.inl x
+    · exact Or.inr x
+  · intro hr; rcases a3 with x | x
+    · rw [x] at hr; cases hr
+    · exact x
 
 /-- **unrecoverable_prefixes.**  The exact set of (case, path, number of effects performed, mechanism) of the
     regenerated table at which a process death is NOT recovered.  A source change that opens a new such prefix — or
@@ -360,7 +377,7 @@ theorem unrecoverable_signatures :
     update_group_data, self_update, leave_group, clear_pending_commit, the failure-recording paths, the start-up
     prune and the step functions — has NO unrecoverable prefix -/
 theorem other_entry_points_recoverable :
-    ∀ x ∈ CrashSeq.allPrefixes, x.1 ∉ [0, 1, 4, 5, 14, 23] → x.2.2.2.harmless = true := by decide
+    ∀ x ∈ CrashSeq.openPrefixes, x.1 ∈ [0, 1, 4, 5, 14, 23] := by decide
 
 def coreClass : CrashCore.Class → CrashSeq.ClassG
   | .recoverable => .recoverable
